@@ -304,7 +304,7 @@ func c17cat(parts ...[]byte) []byte {
 }
 
 // c17NbtWalk walks one NBT value (network format) like a reader and refuses inputs whose declared lengths would
-// make the decoder allocate a lot, and negative typed-array lengths (package nbt's own defect, not chat's).
+// make the decoder allocate a lot (memory exhaustion is not modelled).
 // Returns the verdict and how far it got.
 func c17NbtWalk(in []byte) (bool, int) {
 	pos := 0
@@ -350,12 +350,9 @@ func c17NbtWalk(in []byte) (bool, int) {
 			}
 			n := int(int32(binary.BigEndian.Uint32(h)))
 			if n < 0 {
-				if tag != 7 {
-					ok = false
-				}
-				return false
+				return false // refused by the (repaired) decoder before anything is allocated
 			}
-			if n > 1<<16 {
+			if n > 1<<21 { // the decoder allocates n elements before it reads them: keep that below 16 MiB
 				ok = false
 				return false
 			}
@@ -897,6 +894,13 @@ func genC17(c *Ctx) {
 		append([]byte{10}, c17nCompound(c17cat(c17nName(7, "with"), []byte{0, 0, 0, 3, 1, 0xff, 0x80}))...),
 		append([]byte{10}, c17nCompound(c17cat(c17nName(12, "with"), []byte{0, 0, 0, 1, 0x80, 0, 0, 0, 0, 0, 0, 0}))...),
 		append([]byte{10}, c17nCompound(c17nStr("with", "a"))...),
+		append([]byte{10}, c17nCompound(c17cat(c17nName(11, "with"), []byte{0xff, 0xff, 0xff, 0xff}))...),
+		append([]byte{10}, c17nCompound(c17cat(c17nName(12, "with"), []byte{0x80, 0, 0, 0}))...),
+		append([]byte{10}, c17nCompound(c17cat(c17nName(7, "with"), []byte{0xff, 0xff, 0xff, 0xfe, 1}))...),
+		append([]byte{10}, c17nCompound(c17cat(c17nName(11, "with"), []byte{0, 0x10, 0, 0, 0, 0, 0, 1}))...),
+		append([]byte{10}, c17nCompound(c17cat(c17nName(12, "unknown"), []byte{0xff, 0xff, 0xff, 0xff}), c17nStr("text", "t"))...),
+		append([]byte{10}, c17nCompound(c17cat(c17nName(11, "unknown"), []byte{0, 0, 0, 1, 0, 0, 0, 9}), c17nStr("text", "t"))...),
+		[]byte{11, 0xff, 0xff, 0xff, 0xff}, []byte{12, 0x80, 0, 0, 0}, []byte{7, 0xff, 0xff, 0xff, 0xff},
 		append([]byte{10}, c17nCompound(c17cat(c17nName(9, "with"), c17nList(8, 1, c17nStrP("a"))), c17cat(c17nName(9, "with"), c17nList(8, 1, c17nStrP("b"))))...),
 		append([]byte{10}, c17nCompound(c17cat(c17nName(9, "with"), c17nList(3, 1, []byte{0, 0, 0, 7})))...),
 		append([]byte{10}, c17nCompound(c17cat(c17nName(3, "bold"), []byte{0, 0, 0, 1}))...),
@@ -969,6 +973,16 @@ func genC17(c *Ctx) {
 		w := map[byte]int{7: 1, 11: 4, 12: 8}[tag]
 		n := r.Intn(5)
 		arr := []byte{0, 0, 0, byte(n)}
+		switch r.Intn(8) { // declared length negative / far beyond the data (the elements present stay n)
+		case 0:
+			arr = []byte{0xff, 0xff, 0xff, 0xff}
+		case 1:
+			arr = []byte{0x80, 0, 0, 0}
+		case 2:
+			arr = []byte{0, 0x1f, 0xff, 0xff}
+		case 3:
+			arr = []byte{0, 0, 0, byte(n + 1)}
+		}
 		for j := 0; j < n*w; j++ {
 			switch r.Intn(4) {
 			case 0:
